@@ -171,7 +171,9 @@ def run_campaign(check, stats, known, n_examples, seed, tier, shrink_budget_s=15
     def body(case):
         if state['fail_t0'] is not None and time.time()-state['fail_t0'] > shrink_budget_s:
             return
+        _t = time.time()
         res = check.check_case(case)
+        stats.extra['body_s'] = stats.extra.get('body_s', 0.0)+time.time()-_t
         if state['fail_t0'] is None:
             stats.record(case, res, source)
         rest = split_violations(check.ID, case, res, known, stats) if res.violations else []
@@ -202,7 +204,11 @@ def run_campaign(check, stats, known, n_examples, seed, tier, shrink_budget_s=15
     test = settings(max_examples=n_examples, database=None, deadline=None, derandomize=False,
                     report_multiple_bugs=False, print_blob=False,
                     suppress_health_check=list(HealthCheck),
-                    phases=[Phase.generate, Phase.target, Phase.shrink])(test)
+                    # The targeting phase (hill climbing on check.target) was measured to spend 20x the time of the
+                    # checks themselves on some seeds; it is opt-in (VF_TARGET=1). Non-triviality is reached by
+                    # construction in the generators and is reported in the class histogram.
+                    phases=[Phase.generate, Phase.target, Phase.shrink] if os.environ.get('VF_TARGET') else
+                    [Phase.generate, Phase.shrink])(test)
     try:
         test()
     except HarnessError:
